@@ -7,25 +7,26 @@ set -u
 D="$(cd "$1" && pwd)"; TIER="${2:-quick}"; shift; shift 2>/dev/null
 export GOFLAGS=-mod=mod GOPROXY=off GOSUMDB=off GOTOOLCHAIN=local
 PROP=$(python3 -c "import json,sys; print(json.load(open('$D/meta.json'))['property'])")
-cd /repo || exit 2
+REPO="${REPO_DIR:-/repo}"; VH="${VERIF_HOME:-/verif}"
+cd "$REPO" || exit 2
 if [ -n "$(git status --porcelain)" ]; then echo "REPO DIRTY, refusing"; exit 2; fi
-cleanup() { cd /repo && git checkout -q -- . && git clean -fdq -- . >/dev/null 2>&1; rm -rf /repo/_seeded_demo; }
+cleanup() { cd "$REPO" && git checkout -q -- . && git clean -fdq -- . >/dev/null 2>&1; rm -rf "$REPO/_seeded_demo"; }
 trap cleanup EXIT
 git apply "$D/patch.diff" || { echo "RESULT $D apply=FAILED"; exit 2; }
 go build ./... 2>/dev/null && go test -mod=mod -vet=off -count=1 -run '^$' ./... >/dev/null 2>&1 || { echo "RESULT $D compile=FAILED"; exit 2; }
-SUITE=pass; go test -mod=mod -vet=off -count=1 ./... >/tmp/seeded-suite.log 2>&1 || SUITE=FAIL
+SUITE=pass; go test -mod=mod -vet=off -count=1 ./... >"$VH/.work/seeded-suite.log" 2>&1 || SUITE=FAIL
 DEMO=n/a
 if [ -d "$D/demo" ]; then
-  mkdir -p /repo/_seeded_demo && cp -r "$D/demo/." /repo/_seeded_demo/
-  if go test -mod=mod -vet=off -count=1 ./_seeded_demo/... >/tmp/seeded-demo.log 2>&1; then DEMO=passes-with-change; else DEMO=fails-with-change; fi
-  rm -rf /repo/_seeded_demo
+  mkdir -p "$REPO/_seeded_demo" && cp -r "$D/demo/." "$REPO/_seeded_demo/"
+  if go test -mod=mod -vet=off -count=1 ./_seeded_demo/... >"$VH/.work/seeded-demo.log" 2>&1; then DEMO=passes-with-change; else DEMO=fails-with-change; fi
+  rm -rf "$REPO/_seeded_demo"
 fi
 echo "RESULT $D property=$PROP suite=$SUITE demo=$DEMO"
-cd /verif
+cd "$VH"
 for P in $PROP "$@"; do
   OUT=$(./check.sh "$P" "$TIER" 2>&1); RC=$?
   V=$(echo "$OUT" | grep -c '^VIOLATION')
   W=$(echo "$OUT" | grep -m1 'what:' | cut -c1-220)
   echo "CHECK $P tier=$TIER exit=$RC violations_printed=$V $W"
 done
-git -C /verif checkout -q -- evidence 2>/dev/null
+git -C "$VH" checkout -q -- evidence 2>/dev/null
